@@ -436,9 +436,9 @@ def strat_full():
             extra_dh = {'diffie-hellman-group-exchange-sha1': [2048, 3072][sizes[1] % 2], 'diffie-hellman-group-exchange-sha256@ssh.com': 4096}
             pol['dh'] = dict(dh, **extra_dh)
             peer['dh'] = dict(pdh, **{k: v + [0, 1024, -1024][(sizes[2] + i) % 3] for i, (k, v) in enumerate(extra_dh.items()) if (sizes[3] + i) % 2})
-            extra_hk = {'rsa-sha2-512': {'hostkey_size': 3072}, 'ssh-dss': {'hostkey_size': 1024}, 'rsa-sha2-512-cert-v01@openssh.com': {'hostkey_size': 3072, 'ca_key_type': 'ssh-rsa', 'ca_key_size': 4096}}
+            extra_hk = {'rsa-sha2-512': {'hostkey_size': 3072}, 'ssh-dss': {'hostkey_size': 1024}, ['rsa-sha2-512-cert-v01@openssh.com', 'ssh-rsa-cert-v01@openssh.com', 'rsa-sha2-256-cert-v01@openssh.com'][sizes[7] % 3]: {'hostkey_size': 3072, 'ca_key_type': ['ssh-rsa', 'ssh-rsa', 'ssh-ed25519'][sizes[9] % 3], 'ca_key_size': [4096, 3072, 256][sizes[9] % 3]}}
             pol['hks'] = dict(hks, **extra_hk)
-            peer['hks'] = dict(phks, **{k: [v['hostkey_size'] + [0, 1024, -512][(sizes[4] + i) % 3], v.get('ca_key_type', ''), (v['ca_key_size'] + [0, 0, -1024][(sizes[6] + i) % 3]) if v.get('ca_key_size') else 0] for i, (k, v) in enumerate(extra_hk.items()) if (sizes[5] + i) % 2})
+            peer['hks'] = dict(phks, **{k: [v['hostkey_size'] + [0, 1024, -512][(sizes[4] + i) % 3], v.get('ca_key_type', ''), max(v['ca_key_size'] + [0, 0, -1024][(sizes[6] + i) % 3], 256) if v.get('ca_key_size') else 0] for i, (k, v) in enumerate(extra_hk.items()) if (sizes[5] + i) % 2})
         if edits[1] % 5 == 0:
             pol['client'] = True
         if edits[2] % 3 == 0:
